@@ -225,6 +225,11 @@ def streamPush (q : EncodeQueue) (data : Option (List Byte)) : Nat → Res (Enco
         | none => .ok (o.q, true)
         | some bytes =>
           if o.ret.toNat ≥ bytes.length then .ok (o.q, true)
+          else if o.ret = 0 then
+            -- no progress requires more space
+            match o.q.ring.prepare 256 with
+            | .ok (r1, _) => streamPush { o.q with ring := r1 } data fuel
+            | .err e => .err e | .null => .null | .oob => .oob | .fault => .fault
           else streamPush o.q (some (bytes.drop o.ret.toNat)) fuel
       else if o.ret = Err.MissingBuffer.code then
         match o.q.ring.prepare 256 with
